@@ -96,6 +96,96 @@ func emitSignerCalls(c *Ctx) (string, error) {
 			}
 		}
 	}
-	sb.WriteString("\n]\n\nend Generated.SignerCalls\n")
+	sb.WriteString("\n]\n\n")
+	sb.WriteString(emitMsgServerCalls(c, files))
+	sb.WriteString("\nend Generated.SignerCalls\n")
 	return sb.String(), nil
+}
+
+// msgServerEndpoints: the endpoints of x/metadata/keeper/msg_server.go whose signer rules C10
+// covers.  For each of them, in source order: the look-up of the stored entry, the copy
+// `proposed := existing`, the edits of the owner / data-access lists (receiver.method), the call
+// of the Validate… function (arguments without ctx) and the store write.
+var msgServerEndpoints = map[string]bool{
+	"WriteScope": true, "DeleteScope": true, "AddScopeDataAccess": true, "DeleteScopeDataAccess": true,
+	"AddScopeOwner": true, "DeleteScopeOwner": true, "WriteSession": true, "WriteRecord": true, "DeleteRecord": true,
+}
+
+var msgServerCallees = map[string]bool{
+	"GetScope": true, "GetSession": true, "GetRecord": true,
+	"AddOwners": true, "RemoveOwners": true, "AddDataAccess": true, "RemoveDataAccess": true,
+	"SetScope": true, "SetSession": true, "SetRecord": true, "RemoveScope": true, "RemoveRecord": true,
+	"ValidateBasic": true,
+}
+
+func emitMsgServerCalls(c *Ctx, files map[string]*ast.File) string {
+	var sb strings.Builder
+	sb.WriteString("def msgServerCalls : List SignerCall := [\n")
+	first := true
+	for _, fn := range sortedKeys(files) {
+		if fn[strings.LastIndex(fn, "/")+1:] != "msg_server.go" {
+			continue
+		}
+		var decls []*ast.FuncDecl
+		for _, d := range files[fn].Decls {
+			if fd, ok := d.(*ast.FuncDecl); ok && fd.Body != nil && recvTypeName(fd) == "msgServer" && msgServerEndpoints[fd.Name.Name] {
+				decls = append(decls, fd)
+			}
+		}
+		sort.Slice(decls, func(i, j int) bool { return decls[i].Pos() < decls[j].Pos() })
+		for _, fd := range decls {
+			type ent struct {
+				pos    int
+				callee string
+				args   []string
+			}
+			var ents []ent
+			ast.Inspect(fd.Body, func(n ast.Node) bool {
+				switch x := n.(type) {
+				case *ast.CallExpr:
+					sel, ok := x.Fun.(*ast.SelectorExpr)
+					if !ok {
+						return true
+					}
+					name := sel.Sel.Name
+					if !msgServerCallees[name] && !strings.HasPrefix(name, "Validate") {
+						return true
+					}
+					callee := name
+					if recv := c.src(sel.X); recv != "k" {
+						callee = recv + "." + name
+					}
+					var args []string
+					for _, a := range x.Args {
+						s := c.src(a)
+						if s == "ctx" {
+							continue
+						}
+						if ce, ok := a.(*ast.CallExpr); ok && strings.HasSuffix(c.src(ce.Fun), "WithTransferAgents") {
+							continue // ctx with transfer agents
+						}
+						args = append(args, s)
+					}
+					ents = append(ents, ent{int(x.Pos()), callee, args})
+				case *ast.AssignStmt:
+					if len(x.Lhs) == 1 && len(x.Rhs) == 1 {
+						if id, ok := x.Lhs[0].(*ast.Ident); ok && (id.Name == "proposed" || id.Name == "existing") {
+							ents = append(ents, ent{int(x.Pos()), "set:" + id.Name, []string{c.src(x.Rhs[0])}})
+						}
+					}
+				}
+				return true
+			})
+			sort.SliceStable(ents, func(i, j int) bool { return ents[i].pos < ents[j].pos })
+			for _, e := range ents {
+				if !first {
+					sb.WriteString(",\n")
+				}
+				first = false
+				sb.WriteString("  ⟨" + leanStr(fd.Name.Name) + ", " + leanStr(e.callee) + ", " + leanStrList(e.args) + "⟩")
+			}
+		}
+	}
+	sb.WriteString("\n]\n")
+	return sb.String()
 }
